@@ -599,4 +599,130 @@ def cellOk (c : RawCell) : Bool :=
 def wf (t : RawTriangle) : Bool :=
   t.all cellOk && (poolOf t).length < 32768
 
+/-! ## Python's `Metadata.__eq__` on the bit view, and the writer as it really decides
+
+`_write_triangle` emits a metadata record when `prev_metadata != cell.metadata` — the dataclass
+`__eq__`: attribute tuples compared with `==`, so details dicts compare as Python dicts (insertion
+order ignored) and numbers compare by VALUE across bool/int/float (`1 == 1.0 == True`,
+`0.0 == -0.0`). `encode` above decides by identity of representation; the two agree on triangles
+that are `coherent` (adjacent metadata are Python-equal exactly when they are identical), which is
+the domain of the round-trip theorems. `encodePy` is the writer for ALL triangles: a run of
+Python-equal metadata gets ONE record, carrying the representation of the run's first cell. -/
+
+/-- the value of a Python number -/
+inductive NumV where
+  | fin (q : Rat)
+  | posInf
+  | negInf
+  | nan
+deriving DecidableEq, Repr
+
+/-- IEEE-754 binary64 from its 8 little-endian bytes, exactly -/
+def f64Val (b : Bytes) : NumV :=
+  let bits : Nat := leNat b
+  let neg : Bool := bits / 2 ^ 63 % 2 == 1
+  let e : Nat := bits / 2 ^ 52 % 2048
+  let m : Nat := bits % 2 ^ 52
+  if e == 2047 then
+    if m == 0 then (if neg then .negInf else .posInf) else .nan
+  else
+    let mant : Int := if e == 0 then (m : Int) else ((2 ^ 52 + m : Nat) : Int)
+    let ex : Nat := if e == 0 then 1 else e
+    let mag : Rat := if 1075 ≤ ex then ((mant * 2 ^ (ex - 1075) : Int) : Rat) else mkRat mant (2 ^ (1075 - ex))
+    .fin (if neg then -mag else mag)
+
+def numOf : RawVal → Option NumV
+  | .bool b => some (.fin (if b then 1 else 0))
+  | .int i => some (.fin i)
+  | .flt b => some (f64Val b)
+  | _ => none
+
+/-- `a == b` for two detail values (NaN is never equal; distinct objects assumed) -/
+def pyValEq (a b : RawVal) : Bool :=
+  match numOf a, numOf b with
+  | some x, some y => x != .nan && x == y
+  | none, none => a == b
+  | _, _ => false
+
+def pyGet? (d : RawDict) (k : Bytes) : Option RawVal := (d.find? (·.1 == k)).map (·.2)
+
+/-- `dict.__eq__`: same size, every key of `a` in `b` with an equal value -/
+def pyDictEq (a b : RawDict) : Bool :=
+  a.length == b.length && a.all (fun e => match pyGet? b e.1 with
+    | some v => pyValEq e.2 v
+    | none => false)
+
+def pyLimitEq : Option Bytes → Option Bytes → Bool
+  | none, none => true
+  | some a, some b => pyValEq (.flt a) (.flt b)
+  | _, _ => false
+
+/-- `Metadata.__eq__` (dataclass `eq=True`) -/
+def pyMetaEq (a b : RawMetadata) : Bool :=
+  a.riskBasis == b.riskBasis && a.country == b.country && a.currency == b.currency &&
+  a.reinsuranceBasis == b.reinsuranceBasis && a.lossDefinition == b.lossDefinition &&
+  pyLimitEq a.limit b.limit && pyDictEq a.details b.details && pyDictEq a.lossDetails b.lossDetails
+
+/-- `prev_metadata != cell.metadata` with `prev_metadata = None` before the first cell -/
+def pyChanged (prev : Option RawMetadata) (m : RawMetadata) : Bool :=
+  match prev with
+  | none => true
+  | some p => !pyMetaEq p m
+
+/-- `_write_triangle`'s loop as written: `prev_metadata` is the previous CELL's metadata -/
+def writeRecordsPy (pool : List Bytes) : Option RawMetadata → List RawCell → Bytes
+  | _, [] => []
+  | prev, c :: cs =>
+    (if pyChanged prev c.md then K.tMetadata :: writeMetaBody pool c.md else []) ++
+      ((kindTag c.kind :: writeCellBody pool c) ++ writeRecordsPy pool (some c.md) cs)
+
+def encodePy (t : RawTriangle) : Bytes :=
+  K.magic ++ (K.version ++ (writePool (poolOf t) ++ writeRecordsPy (poolOf t) none t))
+
+/-- number of metadata changes along the cell sequence (the first cell counts) -/
+def metaChanges : Option RawMetadata → List RawCell → Nat
+  | _, [] => 0
+  | prev, c :: cs => (if pyChanged prev c.md then 1 else 0) + metaChanges (some c.md) cs
+
+/-- adjacent metadata are Python-equal exactly when they are the same representation -/
+def coherentFrom : Option RawMetadata → List RawCell → Bool
+  | _, [] => true
+  | prev, c :: cs => (pyChanged prev c.md == !(prev == some c.md)) && coherentFrom (some c.md) cs
+
+def coherent (t : RawTriangle) : Bool := coherentFrom none t
+
+/-- walk over a cell record without building the cell -/
+def skipCellBody (pool : List (Option Bytes)) (kind : CellKind) : P Unit :=
+  bindP readDate fun _ => bindP readDate fun _ => bindP readDate fun _ =>
+  bindP (readDict pool) fun _ =>
+    match kind with
+    | .incremental => bindP readDate fun _ => fun s => .ok ((), s)
+    | _ => fun s => .ok ((), s)
+
+/-- the record loop of the reader, counting the metadata records (`0x10`) it meets -/
+def countMetaRecords (pool : List (Option Bytes)) : Nat → Bytes → Except Err Nat
+  | 0, _ => .error .other
+  | _ + 1, [] => .ok 0
+  | f + 1, m :: rest =>
+    if m == K.tMetadata then
+      match readMetaBody pool rest with
+      | .error e => .error e
+      | .ok (_, rest') => (countMetaRecords pool f rest').map (· + 1)
+    else
+      match markerKind m with
+      | some kind =>
+        match skipCellBody pool kind rest with
+        | .error e => .error e
+        | .ok (_, rest') => countMetaRecords pool f rest'
+      | none => .ok 0
+
+/-- metadata records in a file -/
+def fileMetaRecords (s : Bytes) : Except Err Nat :=
+  if s.take 4 ≠ K.magic then .error .valueError
+  else if (s.drop 4).take 1 ≠ K.version then .error .valueError
+  else
+    match readPool (s.drop 5) with
+    | .error e => .error e
+    | .ok (pool, rest) => countMetaRecords pool (rest.length + 1) rest
+
 end Bermuda.Codec
